@@ -554,6 +554,11 @@ func splitComma(s string) string {
 func (g *fileGen) canEmbed(m *ir.Message, target *ir.Message, names *nameSet, fl *ir.Field) bool {
 	o := g.o
 	tn := g.flat[target.Name]
+	// the embedded Go field is named after the type: it must not shadow one of the type's own
+	// (flattened) fields, e.g. message Spec { ... Spec = 5; } embedded as obj.Spec
+	if tn.goNames[GoName(target.Name)] || tn.goNames[target.Name] {
+		return false
+	}
 	for k := range tn.goNames {
 		if names.goNames[k] {
 			return false
